@@ -7,6 +7,7 @@ import JunoModel.C18.ProofsPipe
 import JunoModel.C18.ProofsPruner
 import JunoModel.C18.ProofsCompose
 import JunoModel.C18.ProofsWhy
+import JunoModel.C18.ProofsNode
 /-!
 C18 — property theorems (statements only; helper lemmas are in `ProofsSV`, `ProofsRunner`, `ProofsOpen`
 (NewRunner's errors, read faults, histories), `ProofsBlockTx`, `ProofsSDL`, `ProofsHS`, `ProofsPipe`, `ProofsPruner`,
@@ -818,5 +819,96 @@ example : Event.call 0 (0#64) ∈ (start Cfg.fixed freshDisk ⟨[⟨false, false
 example : freshDisk.Clean := fun j h => by
   have : freshDisk.cur = 0#64 := rfl
   rw [this, SV.has_zero] at h; cases h
+
+/-! ## Round 6: node/migration.go over multi-start histories with changing flag sets
+
+`nodeRegistry prune newState` transcribes `registerMigrations(cfg)`, `nodeRun` = `migrateIfNeeded` with that registry,
+`nodeRuns` = any number of node starts. Tied by RUNNING the functions of the tree under test (node/migration.go is
+copied into the harness package on every run): every sequence of three flag sets, an interruption at every commit
+of a start followed by a start without its flag, databases of a newer binary, prune mode without an L1 head. -/
+
+/-- `registerMigrations`: the binary's target is {blocktransactions, statedifflength} ∪ {history pruner iff
+`--prune-mode`} ∪ {head state iff `--new-state}` at the indices databases in the field carry (0, 3, 1, 2). -/
+theorem node_registry_target (p n : Bool) (j : Nat) :
+    SV.has (nodeRegistry p n).target j = (j == 0 || j == 3 || (j == 1 && p) || (j == 2 && n)) :=
+  has_nodeRegistry_target p n j
+
+/-- NO WAY AROUND THE REFUSALS. For every database and every configuration of a node start: (a) if the start
+reports anything the runner did (other than "metadata unreadable") then every applied and every opted-into
+migration is among the migrations this start's flags select; (b) if one is missing — an optional migration applied
+or interrupted and now its flag is absent, or a migration of a newer binary — the start touches nothing, calls no
+migration and does not report success. (In particular there is no "nothing to do" path: a start whose own
+migrations are all applied is still refused when the database has more.) -/
+theorem node_start_never_skips_the_runners_refusals (cfg : Cfg) (hfix : cfg.ignoreUnknownLast = false)
+    (d : Disk) (c : NodeCfg) :
+    (∀ r, (nodeRun cfg d c).2.2 = .ran r → r ≠ .errRead →
+      (∀ j, d.cur.has j = true → (nodeRegistry c.ne.prune c.newState).target.has j = true) ∧
+      (∀ j, d.last.has j = true → (nodeRegistry c.ne.prune c.newState).target.has j = true)) ∧
+    ((∃ j, (d.cur.has j = true ∨ d.last.has j = true) ∧ (nodeRegistry c.ne.prune c.newState).target.has j = false) →
+      (nodeRun cfg d c).1 = d ∧ (nodeRun cfg d c).2.1 = [] ∧ ∀ r, (nodeRun cfg d c).2.2 = .ran r → r = .errRead) := by
+  constructor
+  · intro r hr hne
+    by_cases hn : newRunner cfg (nodeRegistry c.ne.prune c.newState) d = .ok
+    · exact (downgrade_and_optout_refused cfg hfix _ d).mp hn
+    · exact absurd ((nodeRun_of_refused cfg d c hn).2.2 r hr) hne
+  · rintro ⟨j, hj, hno⟩
+    apply nodeRun_of_refused
+    intro hn
+    have h := (downgrade_and_optout_refused cfg hfix _ d).mp hn
+    rcases hj with hj | hj
+    · rw [h.1 j hj] at hno; cases hno
+    · rw [h.2 j hj] at hno; cases hno
+
+/-- OVER HISTORIES OF NODE STARTS: once a start whose flags select migration `j` (e.g. `--prune-mode`: j = 1,
+`--new-state`: j = 2) has reached the runner and got its first write through — whatever happened to it afterwards:
+cancelled, died inside the migration, failed — then after ANY further history of node starts with any flag sets, a
+start whose flags do not select `j` changes nothing, calls nothing and does not succeed. -/
+theorem node_flag_dropped_after_opt_in_is_refused (cfg : Cfg) (hfix : cfg.ignoreUnknownLast = false)
+    (d : Disk) (c0 : NodeCfg) (mid : List NodeCfg) (c : NodeCfg) (j : Nat) (r0 : Result)
+    (hran : (nodeRun cfg d c0).2.2 = .ran r0)
+    (hok : newRunner cfg (nodeRegistry c0.ne.prune c0.newState) d = .ok)
+    (hc : c0.env.crashAt ≠ 0) (hf : c0.env.failAt ≠ 1) (hm : c0.env.metaReadFails = false)
+    (hj : (nodeRegistry c0.ne.prune c0.newState).target.has j = true)
+    (hdrop : (nodeRegistry c.ne.prune c.newState).target.has j = false) :
+    (nodeRun cfg (nodeRuns cfg (nodeRun cfg d c0).1 mid).1 c).1 = (nodeRuns cfg (nodeRun cfg d c0).1 mid).1 ∧
+    (nodeRun cfg (nodeRuns cfg (nodeRun cfg d c0).1 mid).1 c).2.1 = [] ∧
+    ∀ r, (nodeRun cfg (nodeRuns cfg (nodeRun cfg d c0).1 mid).1 c).2.2 = .ran r → r = .errRead := by
+  have h1 : (nodeRun cfg d c0).1.last.has j = true := by
+    rcases nodeRun_cases cfg d c0 with ⟨_, _, h3⟩ | ⟨h1, _, _⟩
+    · rcases h3 with h3 | h3 <;> rw [h3] at hran <;> cases hran
+    · rw [h1, last_target_recorded_by_first_write cfg d c0.start hok hc hf hm]; exact hj
+  have h2 := nodeRuns_last_mono cfg hfix mid _ j h1
+  exact (node_start_never_skips_the_runners_refusals cfg hfix _ c).2 ⟨j, .inr h2, hdrop⟩
+
+/-- NODE HISTORIES ARE RUNNER HISTORIES, and so inherit the runner's guarantees: for every history of node starts
+with changing flag sets (each possibly stopped before the runner, refused, cancelled, killed, with failing reads or
+writes) from a database whose applied bits carry no resume token: a migration recorded as applied at the end was
+applied at the beginning or its `Migrate` returned `(nil, nil)` in the history; applied bits are never cleared; and
+"applied ⇒ no resume token left" still holds at the end. -/
+theorem node_history_keeps_the_runners_guarantees (cfg : Cfg) (hfix : cfg.markOnNilCtx = false) (d : Disk)
+    (cs : List NodeCfg) (j : Nat) :
+    ((nodeRuns cfg d cs).1.cur.has j = true → d.cur.has j = true ∨ Completed (nodeRuns cfg d cs).2 j) ∧
+    (d.cur.has j = true → (nodeRuns cfg d cs).1.cur.has j = true) ∧
+    (d.Clean → (nodeRuns cfg d cs).1.Clean) := by
+  obtain ⟨sts, _, heq⟩ := nodeRuns_eq_starts cfg cs d
+  rw [heq]
+  exact ⟨applied_implies_complete cfg hfix d sts j, applied_is_permanent cfg d sts j,
+    applied_clears_intermediate_state cfg d sts⟩
+
+-- non-vacuity (round 6): a start with --prune-mode dies inside migration 0 (tick 3); a later start without the flag is
+-- refused with the database untouched; with the flag it runs; after a completed upgrade with both flags a start
+-- with no flag (all of ITS migrations applied) is refused as well
+example : (nodeRun Cfg.fixed (nodeRun Cfg.fixed freshDisk
+      ⟨⟨false, true, .present, false, false⟩, false, ⟨fun _ => ⟨false, none, .none⟩, 999, 3, 0, false, fun _ => false⟩⟩).1
+    ⟨⟨false, false, .present, false, false⟩, false, ⟨fun _ => ⟨false, none, .none⟩, 999, 999, 0, false, fun _ => false⟩⟩).2.2 = .refused := by decide
+example : (nodeRun Cfg.fixed (nodeRun Cfg.fixed freshDisk
+      ⟨⟨false, true, .present, false, false⟩, false, ⟨fun _ => ⟨false, none, .none⟩, 999, 3, 0, false, fun _ => false⟩⟩).1
+    ⟨⟨false, true, .present, false, true⟩, false, ⟨fun _ => ⟨false, none, .none⟩, 999, 999, 0, false, fun _ => false⟩⟩).2.2 = .ran .ok := by decide
+example : (nodeRun Cfg.fixed freshDisk
+      ⟨⟨false, true, .present, false, false⟩, false, ⟨fun _ => ⟨false, none, .none⟩, 999, 3, 0, false, fun _ => false⟩⟩).2.2 = .ran .crashed := by decide
+example : (nodeRuns Cfg.fixed freshDisk
+      [⟨⟨false, true, .present, false, false⟩, true, ⟨fun _ => ⟨false, none, .none⟩, 999, 999, 0, false, fun _ => false⟩⟩,
+       ⟨⟨false, false, .present, false, false⟩, false, ⟨fun _ => ⟨false, none, .none⟩, 999, 999, 0, false, fun _ => false⟩⟩]).1.cur = 15#64 := by decide
+example : (nodeRegistry true false).target = 11#64 ∧ (nodeRegistry false false).target = 9#64 := by decide
 
 end Juno.C18.Props
